@@ -359,7 +359,7 @@ PROPS["C17"] = dict(
           "by move_new on the board reached from Board::standard() along its path; every child handle is iterated "
           "independently with a step cap and a depth cap; table reads are bounds-checked by debug_assert (chk), ASan "
           "and Miri (thorough); distinct_nontrivial = distinct positions reached along book lines"),
-    floor=dict(any={"book-nodes": 20000, "book-leaves": 5000}),
+    floor=dict(any={"book-nodes": 20000, "book-leaves": 5000, "traversal-method-comparisons": 100000}),
     watchdog=dict(quick=300, thorough=3600),
     assumptions=[MODEL_ASSUMPTION, CHK_ASSUMPTION],
 )
@@ -374,7 +374,8 @@ PROPS["C18"] = dict(
           "singletons, all 2016 pairs, files, ranks, diagonals, patterns, seeded boards of 7 densities; flavours chk "
           "(BMI2 nth with overflow traps), generic (default nth), ship (BMI2 without traps); distinct_nontrivial = distinct boards"),
     floor=dict(any={"two-square-boards": 3 * 2016, "special-boards": 92, "seeded-boards": 300000, "nth-checks": 3000000,
-                    "special-pairs": 3 * 8000}),
+                    "special-pairs": 3 * 8000, "collections-of-boards": 100000, "collections-of-squares": 2000,
+                    "collections-from-64-element-arrays": 9}),
     watchdog=dict(quick=600, thorough=7200),
     assumptions=[CHK_ASSUMPTION, "complete for single- and two-square boards, files, ranks, empty, full; other boards sampled "
                  "(every operation acts square-wise)", "the state of the iterator after nth returned None is not judged"],
@@ -390,10 +391,13 @@ PROPS["C19"] = dict(
                      "ops for the five double-ended enum iterators; longer strings / sequences seeded"),
     rule=("each evaluation = one byte string through File/Rank/Piece/PromotionPiece/Pos/ChessMove parsers (bytes and FromStr "
           "forms) compared with the intended language written directly in the harness, or one square/file/rank "
-          "consistency + text round-trip check, or one iterator op sequence run against a slice iterator; "
+          "consistency + text round-trip check, or one iterator op sequence run against a slice iterator (including 70000 "
+          "polls past the end from either side, which crosses 8- and 16-bit cursor wrap), or one valid spelling with a "
+          "character replaced by a wide code point whose low byte aliases it; "
           "distinct_nontrivial = distinct strings / squares / op sequences"),
     floor=dict(any={"two-byte-strings": 2 * 65536, "one-byte-strings": 512, "four-byte-move-strings": 2 * 50625,
-                    "five-byte-move-strings": 2 * 759375, "move-text-round-trips": 2 * 4096, "iterator-op-sequences": 4000000}),
+                    "five-byte-move-strings": 2 * 759375, "move-text-round-trips": 2 * 4096, "iterator-op-sequences": 4000000,
+                    "wide-alias-strings": 60000, "polls-past-the-end": 20000000}),
     watchdog=dict(quick=600, thorough=7200),
     assumptions=[CHK_ASSUMPTION],
 )
